@@ -102,6 +102,14 @@ func (c24) Generate(r *engine.Rand, index int, tier string) *engine.Scenario {
 		sortEvents(sc.Events)
 		return sc
 	}
+	if r.Chance(1, 3) {
+		sc.SetP("samepath", 1) // all instances are constructed from one file name (contents and all differ)
+	}
+	if index%16 == 6 {
+		// the fresh process first runs a guest into an undefined opcode: the emulator ends the process
+		// there by design (then there is nothing to compare); if it does not, what follows is as ever
+		sc.SetP("undef_first", 1)
+	}
 	w.store(sc, "")
 	randomWorkload(r).store(sc, "d.")
 	frames := r.Range(2, 12)
@@ -178,6 +186,14 @@ func TraceJSON(path string) int {
 		return 2
 	}
 	res := &engine.Result{}
+	if sc.P("undef_first", 0) != 0 {
+		// a guest that runs into an undefined opcode, unguarded
+		img, _ := cartBuild(engine.CartSpec{Kind: "rom", Program: "00d300", FillSeed: 1})
+		if m, pi := machine.New(img, false, machine.Options{}); pi == nil {
+			machine.Protect(func() { m.RunCycles(12) })
+			m.GB.Cleanup()
+		}
+	}
 	pts, _ := traceOfStalled(sc, "", res, true)
 	if res.Harness != "" {
 		fmt.Println("HARNESS-FAULT", res.Harness)
@@ -283,6 +299,14 @@ func (c24) Execute(sc *engine.Scenario) *engine.Result {
 				ok = true
 			}
 		}
+	}
+	if sc.P("undef_first", 0) != 0 && err != nil && !ok && !strings.Contains(string(out), "HARNESS-FAULT") && !strings.Contains(string(out), "goroutine ") {
+		// ended by the emulator at the undefined opcode
+		res.Probe("child_process_runs")
+		res.Probe("child_ended_at_undefined_opcode")
+		res.Sig("undefined-opcode-ends-the-process")
+		res.Cycles = sc.Cycles * 2
+		return res
 	}
 	if err != nil || !ok {
 		res.Harness = fmt.Sprintf("child process failed: %v: %s", err, string(out))
